@@ -725,6 +725,11 @@ func (c *Ctx) ruleIgnoreSetAdd() {
 								return l.Kind == "eq" && !l.Pos && (isFieldOf(P, l.X, IS, "MinPos") || isFieldOf(P, l.Y, IS, "MinPos")) && (isZeroPos(l.X) || isZeroPos(l.Y))
 							})
 						}
+						for _, l := range P.BlockGuards(b) {
+							if ls := l.String(); strings.Contains(ls, "lt(") && (strings.Contains(ls, "util.IgnoreSet.MaxPos") || strings.Contains(ls, "util.IgnoreMarker.EndPos")) {
+								c.fail("IGNORESET/MINMAX", name+"#MinPos#extra-guard", where, "the update of MinPos additionally depends on "+short(ls)+": a marker for which that comparison goes the other way does not lower MinPos")
+							}
+						}
 						sawMin = okV && cut
 						c.check(okV && cut, "IGNORESET/MINMAX", name+"#MinPos", where, "MinPos = marker.StartPos iff unset or StartPos < MinPos", "MinPos is not maintained as the minimum of the markers' start positions: "+short(P.Desc(x.Val)))
 					case "MaxPos":
@@ -749,6 +754,13 @@ func (c *Ctx) ruleIgnoreSetAdd() {
 							}
 							okV = (isFieldOf(P, a0, IS, "MaxPos") && isEnd(a1)) || (isFieldOf(P, a1, IS, "MaxPos") && isEnd(a0))
 							cut = okV
+						}
+						// the update of one bound must not depend on the comparison made for the other bound (`if start <
+						// MinPos {..} else if end > MaxPos {..}`: a marker that widens the span on both sides leaves MaxPos stale)
+						for _, l := range P.BlockGuards(b) {
+							if ls := l.String(); strings.Contains(ls, "lt(") && (strings.Contains(ls, "util.IgnoreSet.MinPos") || strings.Contains(ls, "util.IgnoreMarker.StartPos")) {
+								c.fail("IGNORESET/MINMAX", name+"#MaxPos#extra-guard", where, "the update of MaxPos additionally depends on "+short(ls)+": a marker for which that comparison goes the other way does not raise MaxPos")
+							}
 						}
 						sawMax = okV && cut
 						c.check(okV && cut, "IGNORESET/MINMAX", name+"#MaxPos", where, "MaxPos = marker.EndPos iff unset or EndPos > MaxPos", "MaxPos is not maintained as the maximum of the markers' end positions: "+short(P.Desc(x.Val)))
